@@ -38,7 +38,7 @@ pub fn ledger_op<const N: usize>(op: u8) {
     let mut inserted = [0u8; K];
     let p: [bool; K] = any();
     let cut: usize = any();
-    assume(cut <= N);
+    assume(cut <= 3);
     if op == 1 {
         let k = any_id();
         if let Ok(o) = t.find_entry(h[k as usize], |v| v.id == k) {
@@ -59,7 +59,7 @@ pub fn ledger_op<const N: usize>(op: u8) {
     } else if op == 4 {
         let mut it = t.extract_if(|v| p[v.id as usize]);
         let mut j = 0;
-        while j < N {
+        while j < 3 {
             if j >= cut {
                 break;
             }
@@ -76,7 +76,7 @@ pub fn ledger_op<const N: usize>(op: u8) {
     } else if op == 5 {
         let mut it = t.drain();
         let mut j = 0;
-        while j < N {
+        while j < 3 {
             if j >= cut {
                 break;
             }
@@ -99,7 +99,7 @@ pub fn ledger_op<const N: usize>(op: u8) {
     } else if op == 6 {
         let mut it = t.into_iter();
         let mut j = 0;
-        while j < N {
+        while j < 3 {
             if j >= cut {
                 break;
             }
